@@ -36,9 +36,9 @@ def carg(t, spec):
     kind, v = spec
     if kind == 'str':
         return f'(AStr {t.s(v)})'
-    if kind == 'tid':
+    if kind in ('tid', 'utid'):
         return f'(ATid {t.k(v)})'
-    if kind in ('ident', 'oterm', 'cterm'):
+    if kind in ('ident', 'uident', 'oterm', 'cterm'):
         return f'(AIdent {t.k(v)})'
     return 'AOther'
 
